@@ -271,6 +271,13 @@ func (C14) Gen(r *core.Rng, tier string, emit func(string)) {
 		for _, l := range limits {
 			emit(fmt.Sprintf("editcrash %d %s # %s", l, a.line(), hexs([]byte(meta))))
 		}
+		// the same through the command line (`pmtiles edit FILE --header-json=… --metadata=…`, the real binary):
+		// option handling is part of what must leave the archive old or new
+		for i, l := range limits {
+			if i%4 == 0 || l >= len(full)-200 {
+				emit(fmt.Sprintf("editcli %d %s # %s", l, a.line(), hexs([]byte(meta))))
+			}
+		}
 		// header-only path under a limit, too
 		// the in-place path is one 127-byte write at offset 0, assumed atomic (sub-page pwrite); a size limit below
 		// 127 bytes on an existing larger file would tear it and is outside the modelled failures
@@ -341,13 +348,20 @@ func (C14) RunGo(line string) string {
 			return "identical"
 		}
 		return "changed"
-	case "editcrash":
+	case "editcrash", "editcli":
 		limit := body[1]
 		meta := "-"
 		if len(cm) > 0 {
 			meta = cm[0]
 		}
-		cmd := exec.Command(os.Args[0], "editchild", limit, strings.Join(body[2:], " "), meta)
+		cli := ""
+		if body[0] == "editcli" {
+			cli = os.Getenv("VERIF_CLI")
+			if cli == "" {
+				return "no-cli-binary"
+			}
+		}
+		cmd := exec.Command(os.Args[0], "editchild", limit, strings.Join(body[2:], " "), meta, cli)
 		out, err := cmd.Output()
 		if err != nil {
 			return "child-failed"
@@ -396,7 +410,18 @@ func EditChild(args []string) {
 	saved := rl
 	rl.Cur = limit
 	syscall.Setrlimit(syscall.RLIMIT_FSIZE, &rl)
-	err := pmtiles.Edit(discardLogger, path, hj, mf)
+	var err error
+	if len(args) > 3 && args[3] != "" {
+		// the real command-line tool, inheriting the size limit
+		cargs := []string{"edit", path, "--header-json=" + hj}
+		if mf != "" {
+			cargs = append(cargs, "--metadata="+mf)
+		}
+		c := exec.Command(args[3], cargs...)
+		err = c.Run()
+	} else {
+		err = pmtiles.Edit(discardLogger, path, hj, mf)
+	}
 	syscall.Setrlimit(syscall.RLIMIT_FSIZE, &saved)
 	got, _ := os.ReadFile(path)
 	res := "damaged"
@@ -413,7 +438,7 @@ func EditChild(args []string) {
 }
 
 func (C14) Agree(line, goOut, modelOut string) bool {
-	if strings.HasPrefix(line, "editcrash") {
+	if strings.HasPrefix(line, "editcrash") || strings.HasPrefix(line, "editcli") {
 		return strings.HasPrefix(goOut, "old") || strings.HasPrefix(goOut, "new")
 	}
 	return goOut == modelOut
@@ -425,8 +450,8 @@ func (C14) NonTrivial(line string) bool {
 }
 func (C14) Branch(line, goOut string) string {
 	t := strings.Fields(line)
-	if t[0] == "editcrash" {
-		return "editcrash " + strings.SplitN(goOut, " ", 2)[0]
+	if t[0] == "editcrash" || t[0] == "editcli" {
+		return t[0] + " " + strings.SplitN(goOut, " ", 2)[0]
 	}
 	return t[0]
 }
@@ -457,7 +482,7 @@ func (C14) Oracle(line, goOut string) string {
 		if goOut != "identical" {
 			return "feeding show's header JSON back into edit did not leave the archive byte-identical: " + goOut
 		}
-	case "editcrash":
+	case "editcrash", "editcli":
 		if strings.HasPrefix(goOut, "damaged") {
 			return "after a failed/limited edit the archive path holds neither the original nor the fully edited archive: " + goOut
 		}
